@@ -1,14 +1,16 @@
 #!/bin/bash
-# usage: try_seed.sh <seed-name> <PROPERTY> [check args...]
-# Runs a check against the seeded change.  Works on a throw-away copy of /repo (so that /repo
-# itself stays clean and several seeds can be tried in parallel); the copy is removed afterwards.
+# usage: try_seed.sh <seed-name | dir containing patch.diff> <PROPERTY> [check args...]
+# Runs a check against a seeded change (seeded/<name>/patch.diff) or against the reverse of one of
+# the fix commits (regress/<commit>/patch.diff).  Works on a throw-away copy of /repo (so that
+# /repo itself stays clean and several can be tried in parallel); the copy is removed afterwards.
 # The documented procedure on /repo itself is equivalent:
-#   git -C /repo apply seeded/<seed>/patch.diff && ./check <P> ...; git -C /repo checkout -- .
-S=/verif/seeded/$1; P=$2; shift 2
+#   git -C /repo apply <dir>/patch.diff && ./check <P> ...; git -C /repo checkout -- .
+S=$1; [ -d "$S" ] || S=/verif/seeded/$1; S=$(cd $S && pwd); P=$2; shift 2
 R=/var/tmp/pv/seedrepo-$(basename $S)-$$
 rm -rf $R; mkdir -p $R; rsync -a --exclude target --exclude .git /repo/ $R/
 ( cd $R && git init -q && git apply $S/patch.diff ) || { echo "cannot apply $S"; rm -rf $R; exit 2; }
 cd /verif
-VERIF_REPO=$R ./check $P --no-evidence "$@" > $S/detection.log 2>&1; RC=$?
+L=$S/detection.$P.log
+VERIF_REPO=$R ./check $P --no-evidence "$@" > $L 2>&1; RC=$?
 rm -rf $R
-echo "SEED $(basename $S) check=$P $* exit=$RC $(grep -c '^VIOLATION' $S/detection.log) violation line(s)" | tee -a $S/detection.log
+echo "SEED $(basename $S) check=$P $* exit=$RC $(grep -c '^VIOLATION' $L) violation line(s)" | tee -a $L
